@@ -837,6 +837,11 @@ class Flow:
         if path == "std::clone::Clone::clone" and (c.get("self_ty") or {}).get("s", "").startswith(("std::vec::Vec<", "[")):
             # cloning a collection makes a fresh copy: an allocation site of its own
             return {Src(("alloc", body.id, bb, tuple(rest), path))}
+        if path in ("std::convert::From::from", "std::convert::Into::into", "std::borrow::ToOwned::to_owned") and \
+                t["dest"]["ty"].startswith("std::vec::Vec<") and args and args[0]["k"] != "const" and \
+                args[0]["pl"]["ty"].startswith(("&[", "&mut [", "&std::vec::Vec<")):
+            # Vec::from(&[T]) / slice.to_owned(): a fresh copy of a borrowed sequence
+            return {Src(("alloc", body.id, bb, tuple(rest), path))}
         if path.endswith("::then_some") and len(args) == 2:
             return self._q_operand(body, args[1], rest, mode)
         if path in TRANSPARENT:
